@@ -118,6 +118,9 @@ func specOutstanding(a *Association, tsn uint32) bool {
 //@   safety C03
 
 //@ func Association.handlePeerLastTSNAndAcknowledgement
+//@   ensures#an-acknowledgement-already-due-stays-immediate{C19} old(a.ackState) == ackStateImmediate && old(a.ackMode) != ackModeAlwaysDelay ==> a.immediateAckTriggered
+//@   ensures#every-second-packet-is-acknowledged-at-once{C19} old(a.ackState) == ackStateDelay && old(a.ackMode) == ackModeNormal ==> a.immediateAckTriggered
+//@   ensures#first-packet-may-wait{C19} !a.immediateAckTriggered ==> a.delayedAckTriggered || old(a.delayedAckTriggered)
 //@   ensures#immediate-when-asked{C19} sackImmediately ==> a.immediateAckTriggered
 //@   ensures#immediate-on-gap{C19,C05} a.payloadQueue.size() > 0 ==> a.immediateAckTriggered
 //@   ensures#some-ack-is-scheduled{C19,C05} a.immediateAckTriggered || a.delayedAckTriggered
@@ -387,3 +390,8 @@ func specChunkWireSize(c *chunkPayloadData) int {
 //@ func rtxTimer.close
 //@   at store rtxTimer.pending assert#only-a-timer-stopped-before-firing-is-uncounted{C19} lastBool("(*time.Timer).Stop") && stored == t.pending-1
 //@   ensures#closed{C19} t.state == rtxTimerClosed
+
+// ---- C14: the reconfiguration timer keeps running while any reset request is unanswered ----
+
+//@ func Association.handleReconfigParam
+//@   at call rtxTimer.stop@2 assert#reconfig-timer-stopped-only-when-nothing-is-outstanding{C14} len(a.reconfigs) == 0
